@@ -380,8 +380,31 @@ def check(run: Run) -> None:
                         f"decides `do_eval` from input validity alone ({gtxt[:120]}): schedule(t, tag) followed in the same evaluation by un_schedule(tag) or schedule(t2 > t, tag) "
                         "leaves the slot at t, and at t user code runs with no ticked active input and no due wake-up", loc=fa.loc(gate[0]))
 
+    with run.obligation("C03.k", "K7", "the input selectors a static node declares (active / structural / valid / all-valid lists) are numbered in INPUT space: in each of the four "
+                        "collectors of StaticNodeSignature the running `input_index` advances only for eval parameters that are inputs (inside the is_input_selector arm), so a "
+                        "State / Scalar / scheduler parameter placed before an input does not shift the slot the node subscribes or gates on; the four siblings agree"):
+        SN = "include/hgraph/types/static_node.h"
+        shapes = {}
+        for nm in ("collect_active_input_slot", "collect_structural_input_slot", "collect_valid_input_slot", "collect_all_valid_input_slot"):
+            fa_ = R.fn(run, SN, nm)
+            cn_ = R.Canon()
+            arms = [s0 for s0 in fa_.body.stmts if isinstance(s0, C.If) and "is_input_selector" in cn_(s0.cond)]
+            incs_in = [x for a in arms for x in a.then.walk() if isinstance(x, (C.Unary, C.Postfix)) and x.op == "++" and cn_(x.e) == "input_index"]
+            incs_all = [x for x in fa_.body.walk() if isinstance(x, (C.Unary, C.Postfix)) and x.op == "++" and cn_(x.e) == "input_index"]
+            # the increment must be unconditional INSIDE the arm (a direct statement of the arm's block), exactly once
+            direct = [st for a in arms for st in (a.then.stmts if isinstance(a.then, C.Block) else [a.then]) if isinstance(st, C.ExprStmt) and isinstance(st.e, (C.Unary, C.Postfix)) and
+                      st.e.op == "++" and cn_(st.e.e) == "input_index"]
+            shapes[nm] = (len(arms), len(incs_all), len(incs_in), len(direct))
+            run.count(1, "C03.k")
+            if len(arms) != 1 or len(incs_all) != 1 or len(direct) != 1:
+                run.finding("C03.k", f"{nm}:input-index-not-in-input-space", f"StaticNodeSignature::{nm}: `++input_index` must be the one unconditional step of the is_input_selector arm "
+                            f"(arms={len(arms)}, increments={len(incs_all)}, inside the arm={len(incs_in)}, unconditional there={len(direct)}): counting non-input parameters "
+                            "shifts every later selector to the wrong input slot", loc=fa_.loc(fa_.body))
+        run.sample({"rule": "C03.k", "shapes": shapes})
+
 
 VARIANTS = [
+    {"id": "k-seed-C03-8-active-selector-counts-every-parameter", "expect": "C03.k", "edits": [{"file": "include/hgraph/types/static_node.h", "find": "                if constexpr (E::activity == InputActivity::Active) { slots.push_back(input_index); }\n                ++input_index;\n            }", "replace": "                if constexpr (E::activity == InputActivity::Active) { slots.push_back(input_index); }\n            }\n            ++input_index;"}]},
     {"id": "i2-seed-C03-6-prune-guard-own-flag", "expect": "C03.i", "edits": [{"file": "src/hgraph/types/time_series/ts_input.cpp", "find": "        while (active != nullptr && !active->has_any_active())", "replace": "        while (active != nullptr && !active->active)"}]},
     {"id": "i2-has-any-active-ignores-children", "expect": "C03.i", "edits": [{"file": "src/hgraph/types/time_series/ts_input.cpp", "find": "            if (active) { return true; }\n            return children.any_of([](std::size_t, const TSInputActiveTarget &child) {\n                return child.has_any_active();\n            });", "replace": "            return active;"}]},
     {"id": "i-prune-reads-slot-after-move", "expect": "C03.i", "edits": [{"file": "src/hgraph/types/time_series/ts_input.cpp", "find": "            const auto slot = active->slot;\n            active = parent;\n            static_cast<void>(active->children.erase(slot));", "replace": "            active = parent;\n            static_cast<void>(active->children.erase(active->slot));"}]},
